@@ -253,7 +253,7 @@ def coercions : List (String × String) := [("toInt", "as-modelled:toInt"),
   ("NestedError.Original", "as-modelled:NestedError.Original"),
   ("ErrInvalidOperand.Error", "as-modelled:ErrInvalidOperand.Error")]
 
-def pkgVars : List String := ["parser/ErrEvalOperandMissing", "parser/ErrInvalidOperation"]
+def pkgVars : List String := []
 
 def observers : List String := ["*CompareExpContext", "*ErrInvalidOperand", "*LogicalExpContext", "*NestedError", "*ParenExpContext", "*PresentExpContext", "[]float64", "[]int", "[]string", "bool", "float64", "fmt.Stringer", "int", "int32", "int64", "map[string]interface{}", "string"]
 
